@@ -655,23 +655,32 @@ def glue_trio() -> None:
             # We're in the initial setup-y part, thread not running yet
             return None
 
-        # Find the thread that's hosting the sync_fn
+        # Find the thread that's hosting the sync_fn, and the actual frames
+        # where the sync_fn and its callees are running. The thread's name
+        # needn't be unique (the caller of to_thread.run_sync() can choose it),
+        # so make sure that the worker_fn we find is the one of this very
+        # call: it closes over our task_register.
+        task_register = frame.pyframe.f_locals.get("task_register")
+        previous: types.FrameType | None = None
         for thread in threading.enumerate():
-            if thread.name is thread_name:
+            if thread.name is not thread_name:
+                continue
+            inner_frame = sys._current_frames().get(thread.ident or 0)
+            previous = None
+            current = inner_frame
+            while current is not None and current.f_code is not worker_fn.__code__:
+                previous = current
+                current = current.f_back
+            if current is not None and (
+                task_register is None
+                or current.f_locals.get("task_register") is task_register
+            ):
                 break
         else:  # pragma: no cover
-            # Thread isn't running yet
+            # Thread isn't running (our worker_fn) yet
             return None
-
-        # Find the actual frames where the sync_fn and its callees are running
-        inner_frame = sys._current_frames().get(thread.ident or 0)
-        previous: types.FrameType | None = None
-        current = inner_frame
-        while current is not None and current.f_code is not worker_fn.__code__:
-            previous = current
-            current = current.f_back
-        if current is None or previous is None:  # pragma: no cover
-            # We either didn't find the worker_fn, or it didn't have a callee.
+        if previous is None:  # pragma: no cover
+            # The worker_fn didn't have a callee.
             # Thread isn't doing anything interesting yet.
             return None
 
